@@ -49,6 +49,7 @@ type knownEntry struct {
 	Prop string
 	ID   string
 	Text string
+	SiteA, SiteB string // C12: substrings identifying the two racing sites
 }
 
 func loadKnown() []knownEntry {
@@ -79,6 +80,12 @@ func loadKnown() []knownEntry {
 			}
 			if strings.HasPrefix(f, "id=") {
 				e.ID = strings.TrimPrefix(f, "id=")
+			}
+			if strings.HasPrefix(f, "sites=") {
+				ab := strings.SplitN(strings.TrimPrefix(f, "sites="), "~", 2)
+				if len(ab) == 2 {
+					e.SiteA, e.SiteB = ab[0], ab[1]
+				}
 			}
 		}
 		e.Text = line
@@ -114,6 +121,7 @@ type harnessReport struct {
 	NativeOK     int                      `json:"native_replays_agreeing"`
 	NativeBad    int                      `json:"native_replays_disagreeing"`
 	Samples      []map[string]interface{} `json:"sample_paths,omitempty"`
+	Race         map[string]interface{}   `json:"race_analysis,omitempty"`
 }
 
 type checkRun struct {
@@ -274,6 +282,9 @@ func (cr *checkRun) runHarness(h H, native bool) {
 	for f := range sum.Funcs {
 		cr.funcs[f] = true
 	}
+	if sum.RaceStats.Events > 0 {
+		sum.Asserts["C12.conflicting-pair-ordered"] += sum.RaceStats.Unsat
+	}
 	for _, u := range uniq(sum.Unsupported) {
 		cr.problems = append(cr.problems, h.Fn+": "+u)
 	}
@@ -294,6 +305,53 @@ func (cr *checkRun) runHarness(h H, native bool) {
 			if sum.Asserts[a]+sum.AssertsConc[a] == 0 {
 				cr.problems = append(cr.problems, fmt.Sprintf("%s: assertion %q was never evaluated", h.Fn, a))
 			}
+		}
+	}
+	// data races decided by the predictive analysis (C12)
+	if sum.RaceStats.Events > 0 {
+		rep.Race = map[string]interface{}{"events": sum.RaceStats.Events, "sync_events": sum.RaceStats.SyncEvents, "heap_accesses": sum.RaceStats.Accesses,
+			"candidate_pairs": sum.RaceStats.Candidates, "queries": sum.RaceStats.Queries, "sat": sum.RaceStats.Sat, "unsat": sum.RaceStats.Unsat,
+			"unknown": sum.RaceStats.Unknown, "solver_s": float64(sum.RaceSolverNS) / 1e9}
+		rep.Queries += int64(sum.RaceStats.Queries)
+		rep.Sat += int64(sum.RaceStats.Sat)
+		rep.Unsat += int64(sum.RaceStats.Unsat)
+		rep.SolverS += float64(sum.RaceSolverNS) / 1e9
+		var keys []string
+		for k := range sum.Races {
+			keys = append(keys, k)
+		}
+		sort.Strings(keys)
+		for _, k := range keys {
+			rr := sum.Races[k]
+			var ke *knownEntry
+			for i := range cr.known {
+				e := &cr.known[i]
+				if e.Prop != cr.check.ID || e.SiteA == "" {
+					continue
+				}
+				m1 := strings.Contains(rr.SiteA, e.SiteA) && siteAny(rr.SiteB, e.SiteB)
+				m2 := strings.Contains(rr.SiteB, e.SiteA) && siteAny(rr.SiteA, e.SiteB)
+				if m1 || m2 {
+					ke = e
+					break
+				}
+			}
+			desc := fmt.Sprintf("%s race on a %s: [%s] (%s) vs [%s] (%s); %s", rr.Kind, rr.Loc, rr.SiteA, rr.WhatA, rr.SiteB, rr.WhatB, rr.Order)
+			if ke != nil && ke.Kind == "known" {
+				rep.Known = append(rep.Known, ke.ID+": "+k)
+				if cr.knownSeen == nil {
+					cr.knownSeen = map[string]bool{}
+				}
+				if !cr.knownSeen[ke.ID] {
+					cr.knownSeen[ke.ID] = true
+					cr.knownLines = append(cr.knownLines, fmt.Sprintf("KNOWN-FINDING: %s witness=%s", ke.Text, desc))
+				}
+				continue
+			}
+			cr.nviol++
+			rep.Violations++
+			path := cr.keepText(fmt.Sprintf("%s_%s_race_%d.txt", cr.check.ID, h.Fn, cr.nviol), fmt.Sprintf("property %s: data race found by the predictive analysis\nharness %s params %v\n%s\n", cr.check.ID, h.Fn, h.Params, desc))
+			cr.violLines = append(cr.violLines, fmt.Sprintf("VIOLATION property=%s replay=%s", cr.check.ID, path))
 		}
 	}
 	// known-finding witnesses
@@ -372,6 +430,16 @@ func (cr *checkRun) runHarness(h H, native bool) {
 		}
 	}
 	cr.reports = append(cr.reports, rep)
+}
+
+// siteAny: site contains one of the |-separated alternatives.
+func siteAny(site, alts string) bool {
+	for _, a := range strings.Split(alts, "|") {
+		if a != "" && strings.Contains(site, a) {
+			return true
+		}
+	}
+	return false
 }
 
 func uniq(ss []string) []string {
